@@ -161,7 +161,17 @@ Proof. vm_compute. repeat split; reflexivity. Qed.
     [agen_with_wait_body], [to_aiter_methods]/[to_aiter_selector]: for ALL label sequences the machine
     produces exactly the outputs of the model's step functions and remains in a state related to the model's
     ([MR], [GR]: same sources / tasks / sets `pending`, `done`, matching program point; never stuck).
-    Obligation kind (b) of the brief, proved by a simulation relation and induction over the label list. *)
+    Obligation kind (b) of the brief, proved by a simulation relation and induction over the label list --
+    with this HONEST LABEL: for merge_aiters and agen_with_wait it is "PIN + SIMULATION OF THE PINNED TERM":
+    Aio/TieMerge.v and TieAgen.v pin the regenerated bodies to hand-copied terms ([merge_body_shape],
+    [agen_body_shape], by reflexivity) and simulate the pinned term, so every change of their AST, also a
+    behaviour-preserving one, breaks the obligation.  The to_aiter theorems are symbolic executions of the
+    regenerated methods themselves.  The translator fails closed on class bases other than AsyncIterator[T],
+    class-level statements, other methods, decorators, a rewritten `aiterable`, re-bound / monkeypatched names
+    (`asyncio`, `set`, `next`, the translated definitions) and on ignored statements that contain calls or
+    mention tracked names.
+    Not covered by any label: sources raising something else than StopAsyncIteration, cancelled awaited tasks,
+    athrow(); an early stop of the consumer (aclose / cancellation) only through C19_tie_*_close_loss. *)
 From NL Require Import Aio.Tie.
 
 Theorem C19_tie_merge : forall (items : list (list V)) (ls : list mlabel),
@@ -208,6 +218,43 @@ Theorem C19_tie_to_aiter_sequential : forall thread items k,
   delivered (itouts thread items (seq_labels thread k)) = map (res_at items) (seq 0 k).
 Proof. exact tie_to_aiter_sequential. Qed.
 
+(** the sync-to-async wrapper is usable with `async for` (only base AsyncIterator[T], inherited __aiter__: the
+    translator refuses anything else), its default is the thread variant, and its deprecated alias `aiterable(it)`
+    is `to_aiter(it, thread=False)` with the iterable passed unchanged *)
+Theorem C19_tie_to_aiter_class_facts :
+  to_aiter_aiter_inherited = true /\ to_aiter_flag_default = true /\ aiterable_thread = Some false.
+Proof. exact (conj to_aiter_async_iterable (conj to_aiter_default_thread eq_refl)). Qed.
+
+Theorem C19_tie_aiterable_sequential : forall items k,
+  delivered (snd (itrun_from to_aiter_methods to_aiter_selector (flag_of aiterable_thread) (itinit items)
+                             (seq_labels false k))) = map (res_at items) (seq 0 k).
+Proof. exact tie_aiterable_sequential. Qed.
+
+Theorem C19_tie_to_aiter_default_sequential : forall items k,
+  delivered (itouts (flag_of None) items (seq_labels true k)) = map (res_at items) (seq 0 k).
+Proof. exact tie_to_aiter_default_sequential. Qed.
+
+(** early stop of the consumer (aclose / cancellation at ANY moment; Model.v has no label for it, the machine
+    has [iclose]): the generator ends at its suspension point, the armed anext tasks are not cancelled and may
+    still complete in any number and order; per source, items = yielded before the close ++ AT MOST ONE item
+    consumed and never yielded ++ what the source still holds *)
+Theorem C19_tie_merge_close_loss : forall items ls ks i s,
+  nth_error (m_srcs (mrun items (ls ++ map MComplete ks))) i = Some s ->
+  let c' := fst (imrun_from (iclose (imrun items ls)) (map MComplete ks)) in
+  c_st c' = StFinished /\
+  nth i items [] = proj i (yields (imouts items ls)) ++ inflight s ++ nth i (w_srcs (i_w (c_m c'))) [] /\
+  (List.length (inflight s) <= 1)%nat.
+Proof. exact merge_close_loss. Qed.
+
+Theorem C19_tie_agen_close_loss : forall items ls es,
+  Forall (fun l => glabel_env l = true) es ->
+  let c' := fst (igrun_from (iclose (igrun items ls)) es) in
+  let lost := ainfl (g_anext (grun items (ls ++ es))) in
+  (c_st c' = StFinished \/ c_st c' = StRaised) /\
+  items = gitems (igouts items ls) ++ lost ++ nth 0 (w_srcs (i_w (c_m c'))) [] /\
+  (List.length lost <= 1)%nat.
+Proof. exact agen_close_loss. Qed.
+
 (** the machine really runs the regenerated bodies (not a vacuous equality of two empty lists) *)
 Example C19_tie_example_nonvacuous :
   yields (imouts ex_items ex_ls) = [(1%nat, 3); (0%nat, 1); (0%nat, 2)] /\
@@ -237,3 +284,8 @@ Print Assumptions C19_tie_agen_items.
 Print Assumptions C19_tie_agen_raise_identity.
 Print Assumptions C19_tie_to_aiter.
 Print Assumptions C19_tie_to_aiter_sequential.
+Print Assumptions C19_tie_to_aiter_class_facts.
+Print Assumptions C19_tie_aiterable_sequential.
+Print Assumptions C19_tie_to_aiter_default_sequential.
+Print Assumptions C19_tie_merge_close_loss.
+Print Assumptions C19_tie_agen_close_loss.
